@@ -38,10 +38,31 @@ SHARED_BLOCK = ['c mpz_mul Z40 SZ1 SZ2', 'c mpz_powm Z41 SZ1 SZ2 SZ3', 'c mpz_gc
                 'pf snprintf 300 %s SZ1 SZ2' % rpc.shex('%Zd %Zx'), 'c mpz_set_str Z47 %s #10' % rpc.shex('123456789012345678901234567890123456789'), 'c mpz_urandomb Z47 R0 #300',
                 'c mpz_urandomm Z47 R1 SZ4', 'c mpz_divexact Z48 Z44 SZ6', 'c mpz_sqrt Z49 SZ8', 'c mpz_mul Z40 SZ8 SZ8']
 
+# functions that are natural homes for a static cache, a lazily built table or a shared scratch buffer, with arguments in each of
+# their algorithm regions: every thread executes this block first (so the same function runs simultaneously in all threads), and
+# the data-segment monitor sees any static storage they touch
+CANDIDATES = [
+    'c mpz_bin_uiui Z50 #200 #100', 'c mpz_bin_uiui Z50 #30000 #12000', 'c mpz_bin_uiui Z50 #1000000 #30', 'c mpz_bin_uiui Z50 #5000 #400', 'c mpz_bin_uiui Z50 #20000 #1500',
+    'c mpz_bin_ui Z50 SZ1 #20',
+    'c mpz_fac_ui Z50 #20', 'c mpz_fac_ui Z50 #1000', 'c mpz_fac_ui Z50 #4000', 'c mpz_2fac_ui Z50 #5001', 'c mpz_mfac_uiui Z50 #5000 #3', 'c mpz_primorial_ui Z50 #8000', 'c mpz_primorial_ui Z50 #300',
+    'c mpz_fib_ui Z50 #90', 'c mpz_fib_ui Z50 #20000', 'c mpz_fib2_ui Z50 Z51 #9001', 'c mpz_lucnum_ui Z50 #9000', 'c mpz_lucnum2_ui Z50 Z51 #777',
+    'c mpz_nextprime Z50 SZ2', 'c mpz_next_prime_candidate Z50 SZ3 R2', 'c mpz_probab_prime_p SZ7 #10', 'c mpz_probab_prime_p SZ3 #10', 'c mpz_likely_prime_p SZ7 R2 #0',
+    'c mpz_probable_prime_p SZ7 R2 #10 #0', 'c mpz_miller_rabin SZ7 #5 R2',
+    'c mpz_get_str 0 #10 SZ5', 'c mpz_get_str 0 #7 SZ5', 'c mpz_get_str 0 #62 SZ4', 'c mpz_sizeinbase SZ9 #10',
+    'c mpz_set_str Z50 %s #10' % rpc.shex('9' * 4000), 'c mpz_set_str Z50 %s #7' % rpc.shex('6' * 3000), 'c mpz_set_str Z50 %s #16' % rpc.shex('f' * 5000), 'c mpz_set_str Z50 %s #62' % rpc.shex('z' * 700),
+    'c mpf_get_str 0 & #10 #0 SF1', 'c mpf_get_str 0 & #16 #20 SF2', 'c mpf_set_str F30 %s #10' % rpc.shex('3.14159265358979323846264338327950288e-10'),
+    'c mpz_jacobi SZ4 SZ3', 'c mpz_jacobi SZ5 SZ2', 'c mpz_gcdext Z50 Z51 Z52 SZ5 SZ4', 'c mpz_gcd Z50 SZ5 SZ4', 'c mpz_invert Z50 SZ1 SZ3', 'c mpz_powm Z50 SZ4 SZ1 SZ3', 'c mpz_powm_ui Z50 SZ4 #65537 SZ2',
+    'c mpz_root Z50 SZ5 #7', 'c mpz_sqrt Z50 SZ9', 'c mpz_sqrtrem Z50 Z51 SZ5', 'c mpz_perfect_power_p SZ5', 'c mpz_perfect_square_p SZ9', 'c mpz_remove Z50 SZ5 SZ2', 'c mpz_lcm Z50 SZ4 SZ1',
+    'c mpz_mul Z50 SZ5 SZ5', 'c mpz_tdiv_qr Z51 Z52 Z50 SZ5', 'c mpz_pow_ui Z50 SZ1 #50', 'c mpz_ui_pow_ui Z50 #3 #3000',
+    'c mpz_urandomb Z50 R0 #2000', 'c mpz_urandomm Z50 R0 SZ9', 'c mpz_rrandomb Z50 R1 #5000', 'c mpf_urandomb F30 R0 #500',
+    'pf snprintf 600 %s SZ1 SZ2 SZ4' % rpc.shex('%Zd %#Zx %40Zo'), 'pf asprintf - %s SZ5' % rpc.shex('%Zd'), 'sf sscanf %s %s Z50 Z51' % (rpc.shex('123456789123456789 0xabcdef'), rpc.shex('%Zd %Zi')),
+    'c mpq_add Q20 SQ1 SQ2', 'c mpq_mul Q20 SQ1 SQ2', 'c mpq_get_str 0 #10 SQ1', 'c mpf_sqrt F30 SF1', 'c mpf_div F30 SF1 SF2', 'c mpf_mul F30 SF1 SF1',
+]
+
 def make_script(r, env, ncmds):
     """list of (cmds, case or None)"""
     mods = [__import__(m) for m in MODS]
-    out = []; n = 0
+    out = [(list(CANDIDATES), None)]; n = len(CANDIDATES)
     gens = [m.specs(random.Random(r.getrandbits(40)), 'quick', r.randrange(16), 16, env) for m in mods]
     live = list(range(len(mods)))
     while n < ncmds and live:
